@@ -173,6 +173,9 @@ func execRound(pndb *util.PNodeDB, root []byte, rd rRound) (newRoot []byte, dead
 	return saveRound(P, pndb, rd)
 }
 
+// every path a round hands to a trie lives in one re-used buffer (single goroutine): the next call overwrites it
+var roundPath lab.Scratch
+
 // buildRound executes the round's transactions on a block trie layered over the persistent store (nothing is saved).
 func buildRound(pndb *util.PNodeDB, root []byte, rd rRound) (*util.MerklePatriciaTrie, error) {
 	P := lab.NewMPT(util.NewLevelNodeDB(util.NewMemoryNodeDB(), pndb, false), rd.version, root)
@@ -180,8 +183,8 @@ func buildRound(pndb *util.PNodeDB, root []byte, rd rRound) (*util.MerklePatrici
 		C := lab.NewMPT(util.NewLevelNodeDB(util.NewMemoryNodeDB(), P.GetNodeDB(), false), rd.version, P.GetRoot())
 		for _, op := range tx.ops {
 			if op.del {
-				_, _ = C.Delete(util.Path(op.path))
-			} else if _, ierr := C.Insert(util.Path(op.path), &lab.Val{B: op.val}); ierr != nil {
+				_, _ = C.Delete(roundPath.P(op.path))
+			} else if _, ierr := C.Insert(roundPath.P(op.path), &lab.Val{B: op.val}); ierr != nil {
 				return nil, fmt.Errorf("insert %q in child: %w", op.path, ierr)
 			}
 		}
@@ -304,8 +307,8 @@ func longLivedHistory(c *fw.Ctx, tag string, sweep func(disk string, pndb *util.
 			C := lab.NewMPT(util.NewLevelNodeDB(util.NewMemoryNodeDB(), P.GetNodeDB(), false), v, P.GetRoot())
 			for _, op := range tx.ops {
 				if op.del {
-					_, _ = C.Delete(util.Path(op.path))
-				} else if _, ierr := C.Insert(util.Path(op.path), &lab.Val{B: op.val}); ierr != nil {
+					_, _ = C.Delete(roundPath.P(op.path))
+				} else if _, ierr := C.Insert(roundPath.P(op.path), &lab.Val{B: op.val}); ierr != nil {
 					c.Violate("", "long-lived trie, v%d: insert %q in a child failed: %v", v, op.path, ierr)
 					return
 				}
